@@ -7,6 +7,12 @@ CLAIMED = {
  'C01': dict(technique='Coq proof over definitions translated from the source (qtrans) + bit-exact vm_compute correspondence',
              text='Theorems (all shapes, all entries, any commutative component ring) that each of the six product paths translated from utils.py equals the Hamilton product, conjugate-transpose laws, Frobenius identities, unitary invariance and sub-multiplicativity (over R); the Gallina text is regenerated from /repo on every run and executed against the implementation bit-for-bit.',
              note='Trusted: Coq kernel, qtrans and its NumPy semantics (cross-checked by execution), exact arithmetic standing for binary64; sub-multiplicativity uses the stdlib real axioms.', ref='7/C01'),
+ 'C02': dict(technique='Coq proof over definitions translated from the source (qtrans) + bit-exact vm_compute correspondence',
+             text='Theorems for all shapes and entries over any commutative ring: real_expand, Realp and the complex adjoint as generated from utils.py are additive, real-homogeneous, injective, multiplicative, map conjugate transpose to (conjugate) transpose and scale the squared Frobenius norm by 4 resp. 2; contract(expand(A)) = A; the two layouts are conjugate by the perfect shuffle; component split/merge is lossless.',
+             note='Trusted: Coq kernel, qtrans (tile-write / slice-write / complex-pair semantics, cross-checked by executing the generated definitions), exact arithmetic for binary64.', ref='7/C02'),
+ 'C07': dict(technique='Coq proof of the elimination invariant over a hand model + vm_compute correspondence on all m! forced pivot orders',
+             text='Theorem: for every shape, every entry and every pivot rule choosing a row in [j,m), whenever the model of quaternion_lu returns, PA = LU, IP is a permutation, L is unit lower, U upper, and the two-output mode gives A = (P^T L) U; the executed Qc instance (first arg-max, 1e-15 guard) inherits them. The model is run against LU.py on every interchange sequence for m <= 4 (5 thorough), tall/square/wide, singular inputs, both output modes.',
+             note='Trusted: Coq kernel, the hand model (tied by correspondence: pivot rows exactly, factors within 1e-9, raise <-> None), exact rationals for binary64. Multipliers <= 1 is checked by the exact oracle on outputs, not proved.', ref='7/C07'),
 }
 checks = []
 for pid, c in sorted(CLAIMED.items()):
